@@ -113,7 +113,7 @@ package wallet
 // what the caller-supplied filter says about a credit (uninterpreted)
 //@ spec func utxoAllowed(c wtxmgr.Credit) Bool
 // LOCKED: the outpoint is in the wallet's in-memory lock set
-//@ macro LOCKED(w, op) = (w.lockedOutpoints != nil && has(w.lockedOutpoints, op))
+//@ macro OUTPOINT_LOCKED(w, op) = (w.lockedOutpoints != nil && has(w.lockedOutpoints, op))
 // eligibleCredit: the six filters as one (opaque) predicate of a credit and the
 // request; script = the bytes of the credit's pkScript, locked = "the credit's outpoint is in w.lockedOutpoints".
 //@ spec opaque func eligibleCredit(c wtxmgr.Credit, script Bytes, noFilter Bool, minconf Int, cur Int, maturity Int, locked Bool, net Int, dbh [Int][Bytes]Bool, dbv [Int][Bytes]Bytes, account Int, anyScope Bool, scope waddrmgr.KeyScope) Bool =
@@ -125,12 +125,12 @@ package wallet
 //@     && acctKnown(dbh, dbv, pkAddrKey0(script, net)) && acctOfKey(dbh, dbv, pkAddrKey0(script, net)) == account
 //@     && (anyScope || (scopePurposeOfKey(dbh, dbv, pkAddrKey0(script, net)) == scope.Purpose && scopeCoinOfKey(dbh, dbv, pkAddrKey0(script, net)) == scope.Coin))
 //@ macro ELIGIBLE(c, w, keyScope, account, minconf, curHeight, allowUtxo) = eligibleCredit(c, bytes(c.PkScript), allowUtxo == nil, minconf, curHeight,
-//@     w.chainParams.CoinbaseMaturity, LOCKED(w, c.OutPoint), w.chainParams, DBhas, DBval, account, keyScope == nil, deref(keyScope))
+//@     w.chainParams.CoinbaseMaturity, OUTPOINT_LOCKED(w, c.OutPoint), w.chainParams, DBhas, DBval, account, keyScope == nil, deref(keyScope))
 
 //@ func (*Wallet).LockedOutpoint(w, op) (r)
 //@   property C06
 //@   requires wf: w != nil
-//@   ensures def: r == LOCKED(w, op)
+//@   ensures def: r == OUTPOINT_LOCKED(w, op)
 
 //@ func (*Wallet).findEligibleOutputs@allowUtxo(utxo) (r)
 //@   pure
@@ -175,6 +175,10 @@ package wallet
 //@   invariant 1 index_from_eligible: forall k wire.OutPoint :: {eligibleByOutpoint[k]} eligibleByOutpoint != nil && has(eligibleByOutpoint, k)
 //@       ==> eligibleByOutpoint[k].OutPoint == k && (exists i Int :: 0 <= i && i < len(eligible) && eligible[i] == eligibleByOutpoint[k])
 //@   invariant 2 selected_count: len(eligibleSelectedUtxo) == rangeindex + 1 && rangeindex + 1 <= len(selectedUtxos)
+// the credits that are indexed (and from which the explicit selection is served) are
+// the ones that passed the six filters for the COIN-SELECTION key scope, account,
+// minconf and block height of this request — not, e.g., for the change scope
+//@   invariant 1 eligible_for_selection_scope: forall j Int :: {eligible[j]} 0 <= j && j < len(eligible) ==> ELIGIBLE(eligible[j], w, coinSelectKeyScope, account, minconf, bs.Height, allowUtxo)
 // (a selected outpoint is taken out of the index when it is used, so that a
 // repeated selection is refused: the inputs handed on are pairwise distinct)
 //@   invariant 2 index_only_shrinks: eligibleByOutpoint != nil && forall k wire.OutPoint :: {eligibleByOutpoint[k]} has(eligibleByOutpoint, k) ==> loopentry(has(eligibleByOutpoint, k)) && eligibleByOutpoint[k] == loopentry(eligibleByOutpoint[k])
